@@ -15,7 +15,7 @@ THEOREMS = [
     "table_valid_ising",
 ]
 
-RULE = ("tables: random sequences of make_*interaction / set_do_heatbath / diagonal_update on Qmc and of set_enable_heatbath / "
+RULE = ("tables: random sequences of make_*interaction (1-4 variables; 3-/4-variable diagonal terms via make_diagonal_interaction with the maximum at every sub-state index) / set_do_heatbath / diagonal_update on Qmc and of set_enable_heatbath / "
         "single_diagonal_step / timestep on QmcIsingGraph (2-4 spins, J of both signs and unequal magnitude, h in {0, 1/4, -1/2, 1}, RVB on for half), "
         "the stored table read from the serde snapshot after every operation; isingham: the sampler's own matrix elements on all patterns; "
         "sweeps: exact trajectory of single_diagonal_step / diagonal_update on warmed-up samplers, heat-bath on (3/4) and off, replayed by the model; "
